@@ -223,6 +223,30 @@ impl<'tcx> M<'tcx> {
                 }
                 return Ok(Some(V::Ptr(Ptr { alloc: p.alloc, path: p.path, off: off as usize, sl: None })));
             }
+            "std::intrinsics::copy" | "std::intrinsics::copy_nonoverlapping" | "std::ptr::copy" | "std::ptr::copy_nonoverlapping" => {
+                let et = pointee(vals[0].1);
+                self.copy_elems(vals[0].0.clone(), vals[1].0.clone(), vals[2].0.clone(), et)?;
+                return Ok(Some(V::unit()));
+            }
+            "std::ptr::const_ptr::<impl *const T>::sub" | "std::ptr::mut_ptr::<impl *mut T>::sub" => {
+                let p = ptr_arg(vals, 0)?;
+                let V::Int(k) = vals[1].0 else { return unsup("symbolic pointer offset") };
+                let stride = leaf_count(tcx, pointee(vals[0].1)) as i128;
+                let off = p.off as i128 - k * stride;
+                if off < 0 {
+                    return unsup("negative pointer offset");
+                }
+                return Ok(Some(V::Ptr(Ptr { alloc: p.alloc, path: p.path, off: off as usize, sl: None })));
+            }
+            "std::intrinsics::ptr_offset_from_unsigned" | "std::intrinsics::ptr_offset_from" | "std::ptr::const_ptr::<impl *const T>::offset_from" | "std::ptr::mut_ptr::<impl *mut T>::offset_from" | "std::ptr::const_ptr::<impl *const T>::offset_from_unsigned" | "std::ptr::mut_ptr::<impl *mut T>::offset_from_unsigned" => {
+                let a = ptr_arg(vals, 0)?;
+                let b = ptr_arg(vals, 1)?;
+                let stride = leaf_count(tcx, pointee(vals[0].1)) as i128;
+                if a.alloc != b.alloc || a.path != b.path || stride == 0 {
+                    return unsup("pointer difference between different objects");
+                }
+                return Ok(Some(V::Int((a.off as i128 - b.off as i128) / stride)));
+            }
             "std::ptr::const_ptr::<impl *const T>::cast" | "std::ptr::mut_ptr::<impl *mut T>::cast" | "std::ptr::mut_ptr::<impl *mut T>::cast_const" | "std::ptr::const_ptr::<impl *const T>::cast_mut" => {
                 let mut p = ptr_arg(vals, 0)?;
                 p.sl = None;
@@ -341,6 +365,25 @@ impl<'tcx> M<'tcx> {
                 }
             }
         }
+        // nth / nth_back on the slice iterator (Skip, StepBy over slices): skip k items, then next
+        if let (Some((V::Ptr(p), t0)), Some((V::Int(k), _))) = (vals.first().cloned(), vals.get(1).cloned()) {
+            let m = n.rsplit("::").next().unwrap_or("");
+            if (m == "nth" || m == "nth_back") && vals.len() == 2 {
+                let inner = pointee(t0);
+                if let Ok(V::SliceIter(sp, mut a, mut b, mu)) = self.load(&p, inner) {
+                    let k = (k.max(0) as usize).min(b - a);
+                    if m == "nth" {
+                        a += k
+                    } else {
+                        b -= k
+                    }
+                    let mut it = V::SliceIter(sp, a, b, mu);
+                    let r = self.iter_method(&mut it, if m == "nth" { "next" } else { "next_back" })?;
+                    self.store(&p, inner, it)?;
+                    return Ok(Some(r));
+                }
+            }
+        }
         if n.ends_with("::fold") && vals.len() == 3 && matches!(vals[0].0, V::SliceIter(..) | V::Obj(..)) {
             // Iterator::fold over a modelled iterator: left fold in iteration order
             let mut it = vals[0].0.clone();
@@ -373,6 +416,44 @@ impl<'tcx> M<'tcx> {
                 self.call_callable(fv.clone(), fty, vec![(item, tcx.types.unit)], tcx.types.unit)?;
             }
             return Ok(Some(V::unit()));
+        }
+        if (n.ends_with("Iterator::position") || n.ends_with("Iterator>::position") || n.ends_with("Iterator::find") || n.ends_with("Iterator>::find")) && vals.len() == 2 {
+            // position / find over a modelled iterator (through &mut): in iteration order, stops at the first hit
+            if let (V::Ptr(p), ty::Ref(_, inner, _)) = (vals[0].0.clone(), vals[0].1.kind()) {
+                let inner = *inner;
+                if let Ok(mut it) = self.load(&p, inner) {
+                    if matches!(it, V::SliceIter(..) | V::Obj("zip", _) | V::Obj("zipx", _)) {
+                        let is_pos = n.ends_with("position");
+                        let (fv, fty) = vals[1].clone();
+                        let mut idx = 0i128;
+                        let mut out = V::Enum(0, vec![]);
+                        loop {
+                            let nx = self.iter_method(&mut it, "next")?;
+                            let V::Enum(1, mut e) = nx else { break };
+                            let item = e.remove(0);
+                            let arg = if is_pos {
+                                item.clone()
+                            } else {
+                                let a = self.new_alloc(item.clone(), "find-item");
+                                V::Ptr(Ptr { alloc: a, path: vec![], off: 0, sl: None })
+                            };
+                            let r = self.call_callable(fv.clone(), fty, vec![(arg, tcx.types.unit)], tcx.types.bool)?;
+                            let b = match r {
+                                V::Int(k) => k != 0,
+                                V::T(t) => self.decide_bool(t),
+                                o => return unsup(format!("predicate returned {:?}", o)),
+                            };
+                            if b {
+                                out = V::Enum(1, vec![if is_pos { V::Int(idx) } else { item }]);
+                                break;
+                            }
+                            idx += 1;
+                        }
+                        self.store(&p, inner, it)?;
+                        return Ok(Some(out));
+                    }
+                }
+            }
         }
         if (n.ends_with("::all") || n.ends_with("::any")) && vals.len() == 2 {
             // Iterator::all / any over a modelled iterator (by value or through &mut): short-circuiting, in iteration order
@@ -485,7 +566,7 @@ impl<'tcx> M<'tcx> {
         if n == "std::hint::black_box" || n == "std::intrinsics::black_box" || n == "std::convert::identity" {
             return Ok(Some(vals[0].0.clone()));
         }
-        if n == "std::intrinsics::assume" || n == "std::hint::assert_unchecked" || n == "std::intrinsics::cold_path" {
+        if n == "std::intrinsics::assume" || n == "std::hint::assert_unchecked" || n == "std::intrinsics::cold_path" || n == "std::intrinsics::assert_inhabited" || n == "std::intrinsics::assert_zero_valid" || n == "std::intrinsics::assert_mem_uninitialized_valid" {
             return Ok(Some(V::unit()));
         }
         if n == "std::intrinsics::likely" || n == "std::intrinsics::unlikely" {
